@@ -105,12 +105,18 @@ pub enum Dimension {
     LengthVw,
     /// A length relative to viewport height.
     LengthVh,
-    /// A length relative to viewport size (min or max).
-    LengthVx,
+    /// A length relative to the smaller viewport size.
+    LengthVmin,
+    /// A length relative to the larger viewport size.
+    LengthVmax,
     /// A length relatvie to base font size.
     LengthRem,
     /// A length relative to font size.
     LenghtEm,
+    /// A length relative to the x-height of the font.
+    LengthEx,
+    /// A length relative to the width of a zero in the font.
+    LengthCh,
     /// An angle.
     Angle,
     /// A duration.
@@ -141,8 +147,11 @@ impl Unit {
 
             Self::Vw => Dimension::LengthVw,
             Self::Vh => Dimension::LengthVh,
-            Self::Vmin | Self::Vmax => Dimension::LengthVx,
-            Self::Ch | Self::Em | Self::Ex => Dimension::LenghtEm,
+            Self::Vmin => Dimension::LengthVmin,
+            Self::Vmax => Dimension::LengthVmax,
+            Self::Em => Dimension::LenghtEm,
+            Self::Ex => Dimension::LengthEx,
+            Self::Ch => Dimension::LengthCh,
             Self::Rem => Dimension::LengthRem,
 
             Self::Deg | Self::Grad | Self::Rad | Self::Turn => {
@@ -182,9 +191,7 @@ impl Unit {
     pub(crate) fn scale_factor(&self) -> f64 {
         #[allow(clippy::match_same_arms, reason = "group by dimension")]
         match *self {
-            Self::Em | Self::Rem => 5.,
-            Self::Ex => 3.,
-            Self::Ch => 2.,
+            Self::Em | Self::Rem | Self::Ex | Self::Ch => 1.,
             Self::Vw | Self::Vh | Self::Vmin | Self::Vmax => 1.,
             Self::Cm => 10.,
             Self::Mm => 1.,
@@ -295,9 +302,12 @@ impl From<Dimension> for CssDimension {
             Dimension::LengthAbs
             | Dimension::LengthVw
             | Dimension::LengthVh
-            | Dimension::LengthVx
+            | Dimension::LengthVmin
+            | Dimension::LengthVmax
             | Dimension::LengthRem
-            | Dimension::LenghtEm => Self::Length,
+            | Dimension::LenghtEm
+            | Dimension::LengthEx
+            | Dimension::LengthCh => Self::Length,
             Dimension::Angle => Self::Angle,
             Dimension::Time => Self::Time,
             Dimension::Frequency => Self::Frequency,
